@@ -176,6 +176,11 @@ package bttest
 //@   ensures result1 == nil && !isRegexKind(f) && (forall i :: 0 <= i < len(cs) ==> cellIn(f, fam, col, cs[i])) ==> forall i :: 0 <= i < len(cs) ==> result0[i] == cs[i] || fresh(result0[i])
 //@   ensures result1 == nil && !isRegexKind(f) && (forall i :: 0 <= i < len(cs) ==> !cellIn(f, fam, col, cs[i])) ==> len(result0) == 0
 //@   ensures f != nil && typeis(f.Filter, *btpb.RowFilter_TimestampRangeFilter) && len(cs) > 0 && !tsRangeValid(as(f.Filter, *btpb.RowFilter_TimestampRangeFilter).TimestampRangeFilter) ==> result1 != nil && uf_grpcCode(result1) == codes.InvalidArgument
+// errors only stem from a regex kind, an invalid timestamp range or an invalid label (modifyCell); always InvalidArgument
+//@   ensures (f == nil || (!isRegexKind(f) && !typeis(f.Filter, *btpb.RowFilter_ApplyLabelTransformer) && !(typeis(f.Filter, *btpb.RowFilter_TimestampRangeFilter) && !tsRangeValid(as(f.Filter, *btpb.RowFilter_TimestampRangeFilter).TimestampRangeFilter)))) ==> result1 == nil
+//@   ensures result1 != nil ==> uf_grpcCode(result1) == codes.InvalidArgument
+// kinds that do not transform cells keep the cell objects
+//@   ensures result1 == nil && (f == nil || (!typeis(f.Filter, *btpb.RowFilter_StripValueTransformer) && !typeis(f.Filter, *btpb.RowFilter_ApplyLabelTransformer))) ==> forall k :: 0 <= k < len(result0) ==> exists i :: k <= i < len(cs) && result0[k] == cs[i]
 //@   loop 1 invariant frameOld(heap("T:*bigtablepb.Cell"))
 //@   loop 1 invariant cap(ret) == 0 || fresh(ret)
 //@   loop 1 invariant cellsOK(ret) && len(ret) <= idx1 + 1
@@ -184,6 +189,7 @@ package bttest
 //@   loop 1 invariant !isRegexKind(f) && (forall i :: 0 <= i <= idx1 ==> cellIn(f, fam, col, cs[i])) ==> forall i :: 0 <= i <= idx1 ==> ret[i] == cs[i] || fresh(ret[i])
 //@   loop 1 invariant !isRegexKind(f) && (forall i :: 0 <= i <= idx1 ==> !cellIn(f, fam, col, cs[i])) ==> len(ret) == 0
 //@   loop 1 invariant f != nil && typeis(f.Filter, *btpb.RowFilter_TimestampRangeFilter) && idx1 >= 0 ==> tsRangeValid(as(f.Filter, *btpb.RowFilter_TimestampRangeFilter).TimestampRangeFilter)
+//@   loop 1 invariant (f == nil || (!typeis(f.Filter, *btpb.RowFilter_StripValueTransformer) && !typeis(f.Filter, *btpb.RowFilter_ApplyLabelTransformer))) ==> forall k :: 0 <= k < len(ret) ==> exists i :: k <= i <= idx1 && ret[k] == cs[i]
 
 // ---------------------------------------------------------------------------------------------
 // filterRow (C05)
@@ -191,6 +197,13 @@ package bttest
 
 // every column of the row satisfies ...: helper shapes
 //@ spec rowAllEmpty(r *btpb.Row) bool = forall i, j :: 0 <= i < len(r.Families) && 0 <= j < len(r.Families[i].Columns) ==> len(r.Families[i].Columns[j].Cells) == 0
+// column c is not one of the columns of the tree below row r
+//@ spec outside(c *btpb.Column, r *btpb.Row) bool = forall i, j :: 0 <= i < len(r.Families) && 0 <= j < len(r.Families[i].Columns) ==> c != r.Families[i].Columns[j]
+// Row.Families of every other pre-existing row is untouched
+//@ spec otherRowsKept(r *btpb.Row) bool = forall p *btpb.Row :: !fresh(p) && p != r ==> p.Families == old(p.Families)
+// separation of a filtered copy a from the row b that Interleave rebuilds: families, column arrays, columns
+//@ spec famsApart(a *btpb.Row, b *btpb.Row) bool = forall i, m :: 0 <= i < len(a.Families) && 0 <= m < len(b.Families) ==> a.Families[i] != b.Families[m] && (obj(a.Families[i].Columns) != obj(b.Families[m].Columns) || obj(b.Families[m].Columns) == 0)
+//@ spec colsApart(a *btpb.Row, b *btpb.Row) bool = forall i, j, m, n :: 0 <= i < len(a.Families) && 0 <= j < len(a.Families[i].Columns) && 0 <= m < len(b.Families) && 0 <= n < len(b.Families[m].Columns) ==> a.Families[i].Columns[j] != b.Families[m].Columns[n]
 // the error of an invalid filter argument
 //@ spec invalidArg(ok bool, err error) bool = !ok && err != nil && uf_grpcCode(err) == codes.InvalidArgument
 
@@ -205,6 +218,15 @@ package bttest
 //@   ensures rowOK(r)
 //@   ensures result1 != nil ==> !result0
 //@   ensures f == nil ==> result0 && result1 == nil
+// --- frame: heap("F:bigtablepb.Column.Cells") is declared as a whole (no per-tree designator); what really changes is
+// only the cell lists of columns that belonged to r at entry (or are new). Callers that filter a copy keep the original.
+//@   ensures forall c *btpb.Column :: !fresh(c) && old(outside(c, r)) ==> c.Cells == old(c.Cells)
+// the family list of r is either untouched or (Interleave, directly or nested) rebuilt from newly allocated objects
+//@   ensures r.Families == old(r.Families) || treeFresh(r)
+//@   ensures old(famSep(r.Families)) ==> famSep(r.Families)
+// --- cuts: restate the row facts after every recursive call / copy
+//@   callsite filterRow ensures rowOK(r)
+//@   callsite filterRow ensures forall c *btpb.Column :: !fresh(c) && old(outside(c, r)) ==> c.Cells == old(c.Cells)
 // --- validation: rejected with InvalidArgument, never ignored, never fatal
 //@   ensures f != nil && typeis(f.Filter, *btpb.RowFilter_BlockAllFilter) ==> !result0 && ((result1 == nil) == as(f.Filter, *btpb.RowFilter_BlockAllFilter).BlockAllFilter)
 //@   ensures f != nil && typeis(f.Filter, *btpb.RowFilter_PassAllFilter) ==> ((result1 == nil) == as(f.Filter, *btpb.RowFilter_PassAllFilter).PassAllFilter) && (result1 == nil ==> result0)
@@ -237,20 +259,62 @@ package bttest
 //@   ensures f != nil && !typeis(f.Filter, *btpb.RowFilter_Chain_) && !typeis(f.Filter, *btpb.RowFilter_Interleave_) && !typeis(f.Filter, *btpb.RowFilter_Condition_) ==> r.Families == old(r.Families)
 // --- loops
 //@   loop 1 invariant rowOK(r)
+//@   loop 1 invariant r.Families == old(r.Families) || treeFresh(r)
+//@   loop 1 invariant old(famSep(r.Families)) ==> famSep(r.Families)
+//@   loop 1 invariant otherRowsKept(r)
+//@   loop 1 invariant frameOld(heap("T:*bigtablepb.Family"), heap("F:bigtablepb.Family.Columns"), heap("T:*bigtablepb.Column"), heap("T:*bigtablepb.Cell"))
+//@   loop 1 invariant forall c *btpb.Column :: !fresh(c) && old(outside(c, r)) ==> c.Cells == old(c.Cells)
+// Interleave, phase 1: every branch works on its own deep copy; nothing that existed at entry changes
 //@   loop 2 invariant rowOK(r)
+//@   loop 2 invariant frameOld(heap("F:bigtablepb.Row.Families"), heap("T:*bigtablepb.Family"), heap("F:bigtablepb.Family.Columns"), heap("T:*bigtablepb.Column"), heap("F:bigtablepb.Column.Cells"), heap("T:*bigtablepb.Cell"))
 //@   loop 2 invariant forall k :: 0 <= k < len(srs) ==> rowOK(srs[k])
+//@   loop 2 invariant forall k :: 0 <= k < len(srs) ==> fresh(srs[k])
 //@   loop 2 invariant fresh(srs) && len(srs) <= idx2 + 1 && cap(srs) == len(as(old(f.Filter), *btpb.RowFilter_Interleave_).Interleave.Filters)
+// Interleave, phase 2 (merge): r is rebuilt from new families / columns / cell arrays, apart from the copies in srs
 //@   loop 3 invariant rowOK(r)
+//@   loop 3 invariant treeFresh(r)
+//@   loop 3 invariant famSep(r.Families)
+//@   loop 3 invariant otherRowsKept(r)
+//@   loop 3 invariant frameOld(heap("T:*bigtablepb.Row"), heap("T:*bigtablepb.Family"), heap("F:bigtablepb.Family.Columns"), heap("T:*bigtablepb.Column"), heap("F:bigtablepb.Column.Cells"), heap("T:*bigtablepb.Cell"))
 //@   loop 3 invariant forall k :: 0 <= k < len(srs) ==> rowOK(srs[k])
+//@   loop 3 invariant forall k :: 0 <= k < len(srs) ==> fresh(srs[k])
+//@   loop 3 invariant forall k :: 0 <= k < len(srs) ==> cap(r.Families) == 0 || obj(srs[k].Families) != obj(r.Families)
+//@   loop 3 invariant forall k :: 0 <= k < len(srs) ==> famsApart(srs[k], r)
+//@   loop 3 invariant forall k :: 0 <= k < len(srs) ==> colsApart(srs[k], r)
 //@   loop 4 invariant rowOK(r)
+//@   loop 4 invariant treeFresh(r)
+//@   loop 4 invariant famSep(r.Families)
+//@   loop 4 invariant otherRowsKept(r)
+//@   loop 4 invariant frameOld(heap("T:*bigtablepb.Row"), heap("T:*bigtablepb.Family"), heap("F:bigtablepb.Family.Columns"), heap("T:*bigtablepb.Column"), heap("F:bigtablepb.Column.Cells"), heap("T:*bigtablepb.Cell"))
 //@   loop 4 invariant forall k :: 0 <= k < len(srs) ==> rowOK(srs[k])
+//@   loop 4 invariant forall k :: 0 <= k < len(srs) ==> fresh(srs[k])
+//@   loop 4 invariant forall k :: 0 <= k < len(srs) ==> cap(r.Families) == 0 || obj(srs[k].Families) != obj(r.Families)
+//@   loop 4 invariant forall k :: 0 <= k < len(srs) ==> famsApart(srs[k], r)
+//@   loop 4 invariant forall k :: 0 <= k < len(srs) ==> colsApart(srs[k], r)
 //@   loop 4 invariant 0 <= idx3 + 1 < len(srs) && sr == srs[idx3 + 1]
 //@   loop 5 invariant rowOK(r)
+//@   loop 5 invariant treeFresh(r)
+//@   loop 5 invariant famSep(r.Families)
+//@   loop 5 invariant otherRowsKept(r)
+//@   loop 5 invariant frameOld(heap("T:*bigtablepb.Row"), heap("T:*bigtablepb.Family"), heap("F:bigtablepb.Family.Columns"), heap("T:*bigtablepb.Column"), heap("F:bigtablepb.Column.Cells"), heap("T:*bigtablepb.Cell"))
 //@   loop 5 invariant forall k :: 0 <= k < len(srs) ==> rowOK(srs[k])
+//@   loop 5 invariant forall k :: 0 <= k < len(srs) ==> fresh(srs[k])
+//@   loop 5 invariant forall k :: 0 <= k < len(srs) ==> cap(r.Families) == 0 || obj(srs[k].Families) != obj(r.Families)
+//@   loop 5 invariant forall k :: 0 <= k < len(srs) ==> famsApart(srs[k], r)
+//@   loop 5 invariant forall k :: 0 <= k < len(srs) ==> colsApart(srs[k], r)
 //@   loop 5 invariant 0 <= idx3 + 1 < len(srs) && sr == srs[idx3 + 1]
 //@   loop 5 invariant 0 <= idx4 + 1 < len(sr.Families) && fam == sr.Families[idx4 + 1]
+//@   loop 5 invariant exists m :: 0 <= m < len(r.Families) && r.Families[m] == f
 //@   loop 6 invariant rowOK(r)
+//@   loop 6 invariant treeFresh(r)
+//@   loop 6 invariant famSep(r.Families)
+//@   loop 6 invariant otherRowsKept(r)
+//@   loop 6 invariant frameOld(heap("T:*bigtablepb.Row"), heap("T:*bigtablepb.Family"), heap("F:bigtablepb.Family.Columns"), heap("T:*bigtablepb.Column"), heap("F:bigtablepb.Column.Cells"), heap("T:*bigtablepb.Cell"))
 //@   loop 7 invariant rowOK(r)
+//@   loop 7 invariant treeFresh(r)
+//@   loop 7 invariant famSep(r.Families)
+//@   loop 7 invariant otherRowsKept(r)
+//@   loop 7 invariant frameOld(heap("T:*bigtablepb.Row"), heap("T:*bigtablepb.Family"), heap("F:bigtablepb.Family.Columns"), heap("T:*bigtablepb.Column"), heap("F:bigtablepb.Column.Cells"), heap("T:*bigtablepb.Cell"))
 //@   loop 7 invariant 0 <= idx6 + 1 < len(r.Families) && fam == r.Families[idx6 + 1]
 //@   loop 8 invariant rowOK(r) && r.Families == old(r.Families)
 //@   loop 9 invariant rowOK(r) && r.Families == old(r.Families)
@@ -284,3 +348,11 @@ package bttest
 //@   loop 13 invariant forall i, j :: 0 <= i < len(r.Families) && 0 <= j < len(r.Families[i].Columns) ==> len(r.Families[i].Columns[j].Cells) <= old(len(r.Families[i].Columns[j].Cells))
 //@   loop 14 invariant cellCount == 0 ==> forall i, j :: 0 <= i < len(r.Families) && 0 <= j < len(r.Families[i].Columns) && i <= idx14 ==> len(r.Families[i].Columns[j].Cells) == 0
 //@   loop 15 invariant cellCount == 0 ==> forall i, j :: 0 <= i < len(r.Families) && 0 <= j < len(r.Families[i].Columns) && (i <= idx14 || (i == idx14 + 1 && j <= idx15)) ==> len(r.Families[i].Columns[j].Cells) == 0
+//@   loop 8 invariant forall c *btpb.Column :: !fresh(c) && old(outside(c, r)) ==> c.Cells == old(c.Cells)
+//@   loop 9 invariant forall c *btpb.Column :: !fresh(c) && old(outside(c, r)) ==> c.Cells == old(c.Cells)
+//@   loop 10 invariant forall c *btpb.Column :: !fresh(c) && old(outside(c, r)) ==> c.Cells == old(c.Cells)
+//@   loop 11 invariant forall c *btpb.Column :: !fresh(c) && old(outside(c, r)) ==> c.Cells == old(c.Cells)
+//@   loop 12 invariant forall c *btpb.Column :: !fresh(c) && old(outside(c, r)) ==> c.Cells == old(c.Cells)
+//@   loop 13 invariant forall c *btpb.Column :: !fresh(c) && old(outside(c, r)) ==> c.Cells == old(c.Cells)
+//@   loop 14 invariant forall c *btpb.Column :: !fresh(c) && old(outside(c, r)) ==> c.Cells == old(c.Cells)
+//@   loop 15 invariant forall c *btpb.Column :: !fresh(c) && old(outside(c, r)) ==> c.Cells == old(c.Cells)
